@@ -1,5 +1,5 @@
 import GrinVerif.Drv.Common
-import GrinVerif.Model.Keys
+import GrinVerif.Model.KeysSig
 /-! Driver glue for the `keys` domain (property C20): recomputes every observation printed by
 `harness/src/bin/keys.rs` with the model `GrinVerif/Model/Keys.lean`.
 
@@ -250,6 +250,17 @@ def handle (st : St) (args : List String) (impl : String) : St × Verdict :=
       | .ok bs => (st, cmpSpec s!"{toHex (beBytes 32 bs)} {ins.length} {outs.length}" impl)
       | _ => (st, cmpSpec "err" impl)
     | none => (st, .unknown)
+  -- signatures (run `sigs`): honest ones verify (rule-fixed), negative controls do not
+  | ["sig", variant, _] =>
+    if variant.startsWith "ok-" then (st, cmpSpec (sigExpected variant) impl)
+    else (st, cmpModel (sigExpected variant) impl)
+  -- the zero blinding factor as signing key: `ExtKeychain::sign_with_blinding` panics (ZERO_KEY
+  -- reaches the assert in `Secp256k1::sign`), `aggsig::sign_with_blinding` signs
+  | ["sigzero", "ksign-blinding", _] => (st, cmpModel "panic" impl)
+  | ["sigzero", "aggsig-blinding", _] => (st, cmpModel "true" impl)
+  | ["mask", m, k] => match parseHex m, parseHex k with
+    | some m, some k => (st, cmpModel (toHex (maskMasterKey m k)) impl)
+    | _, _ => (st, .unknown)
   | ["coinbase", fees] => match nat? fees with
     | some fees =>
       let (o, e) := rewardOutput REWARD fees 7
